@@ -137,6 +137,7 @@ fn do_produce(rt: &tokio::runtime::Runtime, c: &[String]) -> String {
     let scalar = move |sh: &mut brush_core::Shell| set_var(sh, "v", ShellValue::String(v2));
     let (script, use_err): (&str, bool) = match form.as_str() {
         "q" => ("printf %q \"$v\"", false),
+        "qu" => ("printf '%q\\n' \"$v\"", false),
         "Q" => ("printf %s \"${v@Q}\"", false),
         "A" => ("printf %s \"${v@A}\"", false),
         "declp" => ("declare -p v", false),
@@ -182,7 +183,7 @@ fn do_produce(rt: &tokio::runtime::Runtime, c: &[String]) -> String {
     let text: String = match form.as_str() {
         "set" | "declare" => strip_nl(from_line(&raw, "v=")).to_string(),
         "exportp" => strip_nl(from_line(&raw, "declare -x zzv")).to_string(),
-        "declp" | "arr" | "assoc" | "alias" | "aliasall" | "trap" => strip_nl(&raw).to_string(),
+        "qu" | "declp" | "arr" | "assoc" | "alias" | "aliasall" | "trap" => strip_nl(&raw).to_string(),
         "xarg" => {
             // "+ : <text>\n"
             let l = strip_nl(from_line(&raw, "+ : "));
